@@ -265,7 +265,7 @@ def driver(ctx, bindir, args):
     return json.loads(p.stdout.strip().splitlines()[-1])
 
 
-REQUIRED_SETS = {(48, 5), (32, 3), (40, 4), (40, 3), (48, 3), (64, 3)}
+REQUIRED_SETS = {(48, 5), (32, 3), (40, 4), (40, 3), (48, 3), (64, 3), (120, 7)}
 REQUIRED_KINDS = ["solution", "flip_soln", "flip_input", "flip_nonce", "sibling_swap", "dup_one", "doubled_subtree",
                   "wagner_dup", "relaxed_collision", "near_root", "short_tree", "random", "truncated", "extended"]
 
@@ -286,7 +286,7 @@ def run(ctx):
             % (s["records"], s["accepted"], s["rejected"], s["panics"],
                ", ".join("(%d,%d):%d" % (x["n"], x["k"], x["solutions_found"]) for x in s["per_set"])))
     for x in s["per_set"]:
-        if (x["n"], x["k"]) in REQUIRED_SETS and x["full_suites"] == 0:
+        if (x["n"], x["k"]) in REQUIRED_SETS and x["full_suites"] == 0 and not ((x["n"], x["k"]) == (120, 7) and x["light_suites"] > 0):
             raise lib.ToolError("vacuity: no solution found for (%d,%d) in %d instances" % (x["n"], x["k"], x["instances"]))
     for kind in REQUIRED_KINDS:
         if s["by_kind"].get(kind, [0, 0])[0] == 0:
